@@ -335,7 +335,7 @@ Proof.
   destruct Hat1 as [A1 [A2 [A3 [A4 [A5 A6]]]]].
   pose proof Hpre as [Hs Hq Hbad Hf Hd Hpend Hsib Hids Hchain _].
   destruct (pend_after_ok c ids r0 (b_off st) T Hc Hpend Hsib) as [Hp2 Hs2].
-  rewrite app_length, <- Nat.add_assoc, Hrun1. f_equal.
+  rewrite app_length, <- Nat.add_assoc, Hrun1. unfold rcat. cbn [snd]. f_equal.
   destruct stk as [|fr stk'].
   - (* top level: the end of the input closes what is pending *)
     subst rs. cbn [enc_rights] in A1. rewrite app_nil_r in A3.
@@ -413,3 +413,313 @@ Fixpoint rtags (stk : list frame) (rs : list (list rtree)) {struct rs} : list ta
 
 Lemma out_tags_ends T : out_tags (map end_out T) = ends_of T.
 Proof. induction T as [|f T IH]; [reflexivity|]. cbn [map]. unfold out_tags in *. cbn [flat_map end_out app]. rewrite IH. reflexivity. Qed.
+
+Lemma out_tags_items_forest l off : out_tags (items_forest off l) = tags_forest l.
+Proof.
+  pose proof (items_tags_forest l off) as H. revert H. generalize (items_forest off l) (tags_forest l).
+  induction l0 as [|o l0 IH]; intros l1 H; destruct l1 as [|t l1]; try discriminate; [reflexivity|].
+  cbn [map] in H. injection H as H1 H2. destruct o; cbn [out_tag] in H1; try discriminate. injection H1 as ->.
+  unfold out_tags in *. cbn [flat_map app]. rewrite (IH l1 H2). reflexivity.
+Qed.
+
+(* the items of a forest and the Ends it leaves pending are, as tags, the Ends of what was pending before and its tags *)
+Lemma forest_tags l off T : out_tags (outs_forest off l T) ++ ends_of (pend_after off l T) = ends_of T ++ tags_forest l.
+Proof.
+  destruct l as [|x l']; [cbn [outs_forest pend_after tags_forest]; rewrite app_nil_r; reflexivity|].
+  unfold outs_forest, pend_after. rewrite out_tags_app, out_tags_ends, <- app_assoc. f_equal.
+  rewrite <- out_tags_ends, <- out_tags_app, open_close_forest. apply out_tags_items_forest.
+Qed.
+
+Lemma ends_of_app a b : ends_of (a ++ b) = ends_of a ++ ends_of b.
+Proof. unfold ends_of. apply map_app. Qed.
+
+Lemma rights_tags : forall rs off T stk, length rs = S (length stk) ->
+  out_tags (rights_outs off T stk rs) = ends_of T ++ rtags stk rs.
+Proof.
+  induction rs as [|r0 rs IH]; intros off T stk Hl; [discriminate|]. cbn [rights_outs rtags]. rewrite out_tags_app.
+  destruct stk as [|fr stk'].
+  - rewrite out_tags_app, out_tags_ends. cbn [out_tags flat_map]. rewrite app_nil_r, app_nil_r. apply forest_tags.
+  - cbn [length] in Hl. rewrite (IH _ _ stk') by lia. rewrite ends_of_app. cbn [ends_of map].
+    rewrite <- !app_assoc. rewrite (app_assoc (out_tags _)), forest_tags, <- !app_assoc. reflexivity.
+Qed.
+
+Lemma rights_len c : forall rs ids off stk, rights_ok c ids off stk rs -> length rs = S (length stk).
+Proof.
+  induction rs as [|r0 rs IH]; intros ids off stk H; [contradiction H|]. apply rights_ok_cons in H. destruct H as [_ [_ Hm]].
+  destruct stk as [|fr stk']; [subst rs; reflexivity|]. destruct Hm as [_ Hr]. cbn [length]. rewrite (IH _ _ _ Hr). reflexivity.
+Qed.
+
+Lemma rtags_grow d : forall rs stk, rtags (grow_frames d stk) rs = rtags stk rs.
+Proof.
+  induction rs as [|r0 rs IH]; intros stk; [reflexivity|]. cbn [rtags]. destruct stk as [|fr stk']; [reflexivity|].
+  cbn [grow_frames map]. fold (grow_frames d stk'). rewrite IH. destruct (f_size fr); reflexivity.
+Qed.
+
+(* how many outputs the rest of the document gives *)
+Lemma rights_outs_len c : forall rs ids off T stk, rights_ok c ids off stk rs ->
+  (length (rights_outs off T stk rs) <= length T + length stk + length (enc_rights rs) + 1)%nat.
+Proof.
+  induction rs as [|r0 rs IH]; intros ids off T stk H; [contradiction H|]. apply rights_ok_cons in H. destruct H as [Hc [_ Hm]].
+  cbn [rights_outs enc_rights]. rewrite !app_length. pose proof (outs_pend_len c ids r0 off T Hc) as H1.
+  destruct stk as [|fr stk'].
+  - subst rs. rewrite app_length, map_length. cbn [length enc_rights]. lia.
+  - destruct Hm as [_ Hr]. specialize (IH _ (off + flen r0) (pend_after off r0 T ++ [fr]) stk' Hr). rewrite app_length in IH. cbn [length] in *. lia.
+Qed.
+
+(* ------------------------------------------------------------------ whole documents seen from a position inside *)
+Record zdoc : Type := { z_levels : list level; z_rights : list (list rtree) }.
+Definition enc_zdoc (z : zdoc) : list N := enc_levels (z_levels z) ++ enc_rights (z_rights z).
+Definition conf_zdoc (c : cfg) (z : zdoc) : Prop :=
+  conf_levels c [] (z_levels z) (flen (hd [] (z_rights z))) /\
+  rights_ok c (lv_ids [] (z_levels z)) (levels_len (z_levels z)) (lv_stk 0 [] (z_levels z)) (z_rights z).
+Definition out_zdoc (z : zdoc) : list rout :=
+  lv_outs 0 [] (z_levels z) ++ rights_outs (levels_len (z_levels z)) (lv_T 0 [] (z_levels z)) (lv_stk 0 [] (z_levels z)) (z_rights z).
+
+Lemma lv_stk_nonempty : forall L off stk, lv_stk off stk L <> [] -> L <> [] \/ stk <> [].
+Proof. intros [|lv L] off stk H; [right; exact H|left; discriminate]. Qed.
+
+Lemma init_pre c input total : pre c (p_init input) [] [] [] total.
+Proof.
+  constructor; try reflexivity.
+  - unfold p_init, default_fuel. cbn [b_fuel]. lia.
+  - right. repeat split.
+  - constructor.
+  - intros d Hn. contradiction Hn. reflexivity.
+  - intros i a Hn. destruct i; discriminate.
+  - constructor.
+Qed.
+
+Theorem zipper_run c z : strict c -> c_buffered c = [] -> c_emit_eof c = true -> conf_zdoc c z ->
+  p_run c (enc_zdoc z) [RAll] = out_zdoc z.
+Proof.
+  intros Hstrict Hnb He [HL Hr]. unfold p_run. rewrite run_ops_all. destruct z as [L rs]. cbn [z_levels z_rights] in *.
+  unfold enc_zdoc, out_zdoc. cbn [z_levels z_rights].
+  set (input := enc_levels L ++ enc_rights rs). set (st0 := p_init input).
+  pose proof (wf_rights c rs _ _ _ Hr) as Hwr.
+  destruct (descend c Hstrict Hnb L [] st0 [] [] _ _ HL (init_pre c input _) eq_refl Hwr) as [st1 [Hpre1 [B1 [B2 [B3 [_ [Hd1 Hrun1]]]]]]].
+  change (b_off st0) with 0 in *. rewrite N.add_0_l in B2.
+  set (T1 := lv_T 0 [] L) in *. set (stk1 := lv_stk 0 [] L) in *. set (ids1 := lv_ids [] L) in *.
+  rewrite <- B2 in Hr.
+  assert (Hdet : stk1 <> [] -> b_det st1 = true).
+  { intros Hne. apply Hd1. destruct (lv_stk_nonempty L 0 [] Hne) as [H|H]; [exact H|contradiction H; reflexivity]. }
+  pose proof (lv_len c L [] 0 [] [] _ HL) as Hc1. cbn [length] in Hc1. fold T1 stk1 in Hc1.
+  pose proof (rights_outs_len c rs ids1 (b_off st1) T1 stk1 Hr) as Hc2.
+  assert (Hin : length input = (length (enc_levels L) + length (enc_rights rs))%nat) by (unfold input; apply app_length).
+  set (a := length (lv_outs 0 [] L)) in *. set (b := length (rights_outs (b_off st1) T1 stk1 rs)) in *.
+  replace (4 * length input + 64)%nat with (a + (b + (4 * length input + 64 - a - b)))%nat by lia.
+  rewrite Hrun1. unfold rcat. cbn [snd].
+  rewrite (parse_rights c Hstrict Hnb He rs ids1 st1 T1 stk1 Hr Hpre1 Hdet B1). rewrite B2. reflexivity.
+Qed.
+
+(* ------------------------------------------------------------------ C14: junk between two tags *)
+Record ddoc : Type := { d_levels : list level; d_f1 : list rtree; d_junk : list N; d_x : rtree; d_f2 : list rtree;
+                        d_rights : list (list rtree) }.
+Definition enc_ddoc (d : ddoc) : list N :=
+  enc_levels (d_levels d) ++ enc_forest (d_f1 d) ++ d_junk d ++ enc_rights ((d_x d :: d_f2 d) :: d_rights d).
+(* the undamaged document *)
+Definition undamaged (d : ddoc) : zdoc := {| z_levels := d_levels d; z_rights := (d_f1 d ++ d_x d :: d_f2 d) :: d_rights d |}.
+
+(* where the reader stands when it meets the junk: the masters pending or open, and the parse state the junk is judged in *)
+Definition d_off2 (d : ddoc) : N := levels_len (d_levels d) + flen (d_f1 d).
+Definition d_pend (d : ddoc) : list frame := pend_after (levels_len (d_levels d)) (d_f1 d) (lv_T 0 [] (d_levels d)).
+Definition d_stk (d : ddoc) : list frame := lv_stk 0 [] (d_levels d).
+Definition d_k1 (d : ddoc) : nat := exhausted_count (d_off2 d) (d_pend d ++ d_stk d).
+Definition junk_state (d : ddoc) : pst :=
+  {| b_bytes := d_junk d ++ enc_rights ((d_x d :: d_f2 d) :: d_rights d); b_off := d_off2 d;
+     b_stack := skipn (d_k1 d) (d_pend d ++ d_stk d); b_queue := []; b_last := 0; b_det := true; b_bad := None;
+     b_fuel := default_fuel [] (enc_ddoc d) |}.
+
+Definition out_ddoc (d : ddoc) (e0 : rerr) : list rout :=
+  let j := N.of_nat (length (d_junk d)) in
+  lv_outs 0 [] (d_levels d) ++ outs_forest (levels_len (d_levels d)) (d_f1 d) (lv_T 0 [] (d_levels d)) ++
+  map end_out (firstn (d_k1 d) (d_pend d)) ++ [OErr e0; ORecOk] ++
+  rights_outs (d_off2 d + j) (skipn (d_k1 d) (d_pend d)) (grow_frames j (d_stk d)) ((d_x d :: d_f2 d) :: d_rights d).
+
+Lemma run_ops_3 c limit st s1 o1 s2 o3 :
+  p_run_all limit c st = (s1, o1) -> b_bad s1 = None -> p_try_recover c s1 = (s2, None) -> b_bad s2 = None ->
+  snd (p_run_all limit c s2) = o3 ->
+  snd (p_run_ops c limit st [RAll; RRecover; RAll]) = o1 ++ ORecOk :: o3.
+Proof.
+  intros H1 Hb1 H2 Hb2 H3. cbn [p_run_ops]. rewrite H1, Hb1, H2, Hb2.
+  destruct (p_run_all limit c s2) as [s3 o3']. cbn [snd] in H3. subst o3'. destruct (b_bad s3); cbn [snd]; rewrite ?app_nil_r; reflexivity.
+Qed.
+
+Lemma rights_ok_unprepend c ids off stk f1 r0 rs : rights_ok c ids off stk ((f1 ++ r0) :: rs) ->
+  Forall (conf c ids) f1 /\ rights_ok c ids (off + flen f1) stk (r0 :: rs).
+Proof.
+  intros H. apply rights_ok_cons in H. destruct H as [Hc [Hr Hm]]. apply Forall_app in Hc. destruct Hc as [Hc1 Hc2].
+  split; [exact Hc1|]. apply rights_ok_cons. rewrite flen_app, N.add_assoc in Hr, Hm. split; [exact Hc2|]. split; [exact Hr|exact Hm].
+Qed.
+
+Lemma grow_length d stk : length (grow_frames d stk) = length stk.
+Proof. unfold grow_frames. apply map_length. Qed.
+
+Theorem damaged_run c d : strict c -> c_buffered c = [] -> c_emit_eof c = true -> conf_zdoc c (undamaged d) ->
+  d_junk d <> [] -> wf_bytes (d_junk d) -> (d_levels d <> [] \/ d_f1 d <> []) ->
+  room (d_stk d) (d_off2 d + N.of_nat (length (d_junk d)) + tlen (d_x d)) ->
+  junk_from c (junk_state d) (length (d_junk d) - 1) ->
+  exists e0, p_run c (enc_ddoc d) [RAll; RRecover; RAll] = out_ddoc d e0.
+Proof.
+  intros Hstrict Hnb He [HL Hr] Hjk Hwj Hsome Hfits Hjunk.
+  unfold junk_state, out_ddoc, d_k1, d_pend, d_stk, d_off2, enc_ddoc in *.
+  destruct d as [L f1 jk x f2 rs']. cbn [d_levels d_f1 d_junk d_x d_f2 d_rights undamaged z_levels z_rights hd] in *.
+  set (rs2 := (x :: f2) :: rs') in *.
+  set (input := enc_levels L ++ enc_forest f1 ++ jk ++ enc_rights rs2) in *. set (st0 := p_init input).
+  set (T1 := lv_T 0 [] L) in *. set (stk1 := lv_stk 0 [] L) in *. set (ids1 := lv_ids [] L) in *.
+  set (off1 := levels_len L) in *. set (j := length jk) in *.
+  destruct (rights_ok_unprepend c ids1 off1 stk1 f1 (x :: f2) rs' Hr) as [Hf1 Hr2]. fold rs2 in Hr2.
+  pose proof (wf_rights c rs2 _ _ _ Hr2) as Hwr2.
+  assert (Hw1 : wf_bytes (enc_forest f1 ++ jk ++ enc_rights rs2)).
+  { apply wf_app; [apply (conf_wf_forest c ids1 f1 Hf1)|apply wf_app; assumption]. }
+  destruct (descend c Hstrict Hnb L [] st0 [] [] _ _ HL (init_pre c input _) eq_refl Hw1) as [st1 [Hpre1 [B1 [B2 [B3 [_ [Hd1 Hrun1]]]]]]].
+  change (b_off st0) with 0 in *. rewrite N.add_0_l in B2. fold T1 stk1 ids1 off1 in Hpre1, Hrun1, B2.
+  (* the trees in front of the junk *)
+  assert (HP : Forall (Ptree c) f1) by (apply Forall_forall; intros t _; apply parse_tree; assumption).
+  assert (Hle : flen f1 <= flen (f1 ++ x :: f2)) by (rewrite flen_app; lia).
+  assert (Hpre1' : pre c st1 T1 stk1 ids1 (flen f1)) by (eapply pre_weaken; [exact Hle|exact Hpre1]).
+  assert (Hw2 : wf_bytes (jk ++ enc_rights rs2)) by (apply wf_app; assumption).
+  destruct (parse_forest c f1 HP ids1 Hf1 st1 T1 stk1 _ Hpre1' B1 Hw2) as [st2 [Hat2 [Hd2 [Hd2' Hrun2]]]].
+  rewrite B2 in Hat2, Hrun2.
+  assert (Hat2' : at_ st2 (b_bytes st2) (b_off st1 + flen f1) (pend_after (b_off st1) f1 T1 ++ stk1) (b_fuel st1)).
+  { rewrite B2. destruct Hat2 as [A1 [A2 [A3 [A4 [A5 A6]]]]]. repeat split; assumption. }
+  pose proof (pre_after_forest c st1 st2 T1 stk1 ids1 _ f1 Hpre1 Hf1 Hle Hat2' Hd2 Hd2') as Hpre2. rewrite B2 in Hpre2.
+  destruct Hat2 as [A1 [A2 [A3 [A4 [A5 A6]]]]].
+  set (Pend := pend_after off1 f1 T1) in *.
+  assert (Hdet2 : b_det st2 = true).
+  { destruct Hsome as [HLn|Hfn]; [apply Hd2, Hd1, HLn|apply Hd2', Hfn]. }
+  assert (Hpre2' : pre c st2 Pend stk1 ids1 (N.of_nat j + tlen x)).
+  { eapply pre_retotal; [exact Hpre2|]. rewrite A2, N.add_assoc. exact Hfits. }
+  (* the junk, judged in the reader's state *)
+  set (k1 := exhausted_count (off1 + flen f1) (Pend ++ stk1)) in *.
+  assert (Hk1e : exhausted_count (b_off st2) (Pend ++ stk1) = k1) by (rewrite A2; reflexivity).
+  assert (Hjunk2 : junk_from c (ppop_frames st2 (exhausted_count (b_off st2) (Pend ++ stk1))) (j - 1)).
+  { eapply junk_from_same; [exact Hjunk|]. rewrite Hk1e. unfold same_parse, ppop_frames, ppush_q, pset_queue, pset_stack.
+    cbn [b_bytes b_off b_stack b_det b_bad b_fuel]. rewrite A1, A2, A3, A5, A6, B3, Hdet2. repeat split. }
+  assert (Hb2 : b_bytes st2 = jk ++ enc_tree x ++ (enc_forest f2 ++ enc_rights rs')).
+  { rewrite A1. unfold rs2. cbn [enc_rights enc_forest]. rewrite <- !app_assoc. reflexivity. }
+  assert (Hwrest : wf_bytes (enc_forest f2 ++ enc_rights rs')).
+  { unfold rs2 in Hwr2. cbn [enc_rights enc_forest] in Hwr2. rewrite <- app_assoc in Hwr2. unfold wf_bytes in *. rewrite Forall_app in Hwr2. tauto. }
+  pose proof Hr2 as Hr2'. apply rights_ok_cons in Hr2'. destruct Hr2' as [Hcx [Hroom2 _]].
+  assert (Hconfx : conf c ids1 x) by (inversion Hcx; assumption).
+  assert (Hin : length input = (length (enc_levels L) + (length (enc_forest f1) + (j + length (enc_rights rs2))))%nat)
+    by (unfold input, j; rewrite !app_length; reflexivity).
+  assert (Hfuel : (j <= b_fuel st2)%nat) by (rewrite A6, B3; unfold st0, p_init, default_fuel; cbn [b_fuel]; lia).
+  (* counting *)
+  pose proof (lv_len c L [] 0 [] [] _ HL) as Hc1. cbn [length] in Hc1. fold T1 stk1 in Hc1.
+  pose proof (outs_pend_len c ids1 f1 off1 T1 Hf1) as Hc2. fold Pend in Hc2.
+  assert (Hpos : 0 < N.of_nat j + tlen x) by (pose proof (conf_wf c x ids1 Hconfx) as [_ H2]; lia).
+  destruct (pending_rest c st2 Pend stk1 ids1 _ Hpre2' Hpos) as [Hk1 _]. rewrite Hk1e in Hk1.
+  set (a := length (lv_outs 0 [] L)) in *. set (b := length (outs_forest off1 f1 T1)) in *.
+  set (n1 := (4 * length input + 64 - a - b - k1 - 1)%nat).
+  destruct (recover_step c st2 Pend stk1 ids1 _ jk x _ Hstrict Hnb Hpre2' Hdet2 Hb2 Hjk Hwrest Hconfx (N.le_refl _) Hfuel Hjunk2 n1)
+    as [e0 [Sr [R1 [R2 [R3 [R4 [R5 [R6 [R7 R8]]]]]]]]].
+  rewrite Hk1e in R1, R2, R3, R4.
+  exists e0. unfold p_run. fold input. fold st0.
+  (* the first drain *)
+  assert (Hlim : (4 * length input + 64 = a + (b + (k1 + S n1)))%nat) by (unfold n1; lia).
+  assert (Hrun12 : p_run_all (4 * length input + 64) c st0 =
+                   (fst (p_run_all (k1 + S n1) c st2),
+                    lv_outs 0 [] L ++ outs_forest off1 f1 T1 ++ map end_out (firstn k1 Pend) ++ [OErr e0])).
+  { rewrite Hlim, Hrun1, Hrun2. unfold rcat. cbn [fst snd]. rewrite R1. reflexivity. }
+  (* the second drain *)
+  assert (Hr3 : rights_ok c ids1 (b_off Sr) (grow_frames (N.of_nat j) stk1) rs2).
+  { rewrite R6, A2. apply rights_ok_shift. exact Hr2. }
+  assert (Hpre3 : pre c Sr (skipn k1 Pend) (grow_frames (N.of_nat j) stk1) ids1 (flen (hd [] rs2))).
+  { eapply pre_retotal; [exact R4|]. apply rights_ok_cons in Hr3. destruct Hr3 as [_ [H3 _]]. exact H3. }
+  assert (Hb3 : b_bytes Sr = enc_rights rs2).
+  { rewrite R5. unfold rs2. cbn [enc_rights enc_forest]. rewrite <- !app_assoc. reflexivity. }
+  pose proof (rights_outs_len c rs2 ids1 (b_off Sr) (skipn k1 Pend) (grow_frames (N.of_nat j) stk1) Hr3) as Hc3.
+  rewrite grow_length, skipn_length in Hc3.
+  set (b2 := length (rights_outs (b_off Sr) (skipn k1 Pend) (grow_frames (N.of_nat j) stk1) rs2)) in *.
+  pose proof (parse_rights c Hstrict Hnb He rs2 ids1 Sr _ _ Hr3 Hpre3 (fun _ => R8) Hb3 (4 * length input + 64 - b2)) as Hrun3. fold b2 in Hrun3.
+  replace (b2 + (4 * length input + 64 - b2))%nat with (4 * length input + 64)%nat in Hrun3 by lia.
+  destruct R4 as [_ _ Rbad _ _ _ _ _ _ _].
+  rewrite (run_ops_3 c _ st0 _ _ Sr _ Hrun12 R2 R3 Rbad Hrun3). rewrite R6, A2. rewrite <- !app_assoc. reflexivity.
+Qed.
+
+Lemma tags_forest_app a b : tags_forest (a ++ b) = tags_forest a ++ tags_forest b.
+Proof. induction a as [|x a IH]; [reflexivity|]. cbn [app tags_forest]. rewrite IH, app_assoc. reflexivity. Qed.
+
+(* recovery loses nothing: apart from the one error and the successful recovery, the damaged document reads as the same tag
+   sequence as the undamaged one *)
+Theorem recovery_loses_nothing c d : strict c -> c_buffered c = [] -> c_emit_eof c = true -> conf_zdoc c (undamaged d) ->
+  d_junk d <> [] -> wf_bytes (d_junk d) -> (d_levels d <> [] \/ d_f1 d <> []) ->
+  room (d_stk d) (d_off2 d + N.of_nat (length (d_junk d)) + tlen (d_x d)) ->
+  junk_from c (junk_state d) (length (d_junk d) - 1) ->
+  out_tags (p_run c (enc_ddoc d) [RAll; RRecover; RAll]) = out_tags (p_run c (enc_zdoc (undamaged d)) [RAll]).
+Proof.
+  intros Hstrict Hnb He Hz Hjk Hwj Hsome Hfits Hjunk.
+  destruct (damaged_run c d Hstrict Hnb He Hz Hjk Hwj Hsome Hfits Hjunk) as [e0 Hd]. rewrite Hd.
+  rewrite (zipper_run c (undamaged d) Hstrict Hnb He Hz). destruct Hz as [_ Hr].
+  unfold out_ddoc, out_zdoc, d_k1, d_pend, d_stk, d_off2, undamaged in *. cbn [z_levels z_rights] in *.
+  destruct d as [L f1 jk x f2 rs']. cbn [d_levels d_f1 d_junk d_x d_f2 d_rights] in *.
+  set (T1 := lv_T 0 [] L) in *. set (stk1 := lv_stk 0 [] L) in *. set (off1 := levels_len L) in *.
+  set (Pend := pend_after off1 f1 T1). set (k1 := exhausted_count (off1 + flen f1) (Pend ++ stk1)).
+  pose proof (rights_len c _ _ _ _ Hr) as Hlen. cbn [length] in Hlen.
+  rewrite !out_tags_app, out_tags_ends. cbn [out_tags flat_map app].
+  rewrite !(rights_tags _ _ _ _) by (cbn [length]; rewrite ?grow_length; exact Hlen).
+  rewrite rtags_grow. cbn [rtags]. rewrite tags_forest_app. f_equal.
+  rewrite <- !app_assoc. rewrite (app_assoc (ends_of (firstn k1 Pend))), <- ends_of_app, firstn_skipn.
+  rewrite (app_assoc (out_tags _)). unfold Pend. rewrite forest_tags, <- !app_assoc. reflexivity.
+Qed.
+
+(* ------------------------------------------------------------------ header checks see only the parse fields of a state *)
+Lemma p_hier_step_cong c s1 s2 id ty : same_parse s1 s2 ->
+  same_parse (fst (p_hier_step c s1 id ty)) (fst (p_hier_step c s2 id ty)) /\ snd (p_hier_step c s1 id ty) = snd (p_hier_step c s2 id ty).
+Proof.
+  intros [H1 [H2 [H3 [H4 [H5 H6]]]]]. unfold p_hier_step. destruct (negb (c_allow_hier c) && _); [|split; [repeat split; assumption|reflexivity]].
+  rewrite H4. destruct (b_det s1) eqn:Ed; cbn zeta iota.
+  - rewrite H4, Ed, H3. destruct (true && _); cbn [fst snd]; (split; [repeat split; congruence|reflexivity]).
+  - destruct (all_ids _); cbn zeta iota.
+    + destruct (implied_stack _ _) as [stk|]; cbn zeta iota.
+      * cbn [pset_stack b_det b_stack]. rewrite H3. destruct (true && _); cbn [fst snd]; (split; [repeat split; cbn [pset_stack b_bytes b_off b_stack b_det b_bad b_fuel]; congruence|reflexivity]).
+      * split; [|reflexivity]. unfold pset_bad. repeat split; cbn [fst b_bytes b_off b_stack b_det b_bad b_fuel]; try congruence. rewrite H5. reflexivity.
+    + rewrite H4, Ed, H3. destruct (false && _); cbn [fst snd]; (split; [repeat split; congruence|reflexivity]).
+Qed.
+
+Lemma p_header_cong c s1 s2 : same_parse s1 s2 -> snd (p_header c s1) = snd (p_header c s2).
+Proof.
+  intros Hs. pose proof Hs as [H1 [H2 [H3 [H4 [H5 H6]]]]]. rewrite !p_header_unfold. unfold p_tag_id, blen. rewrite H1, H2.
+  destruct (b_bytes s1) as [|b0 tl] eqn:Eb; [reflexivity|].
+  assert (Hx : forall id idl, snd (p_hdr_tail c s1 id idl) = snd (p_hdr_tail c s2 id idl)).
+  { intros id idl. unfold p_hdr_tail. rewrite H1, H2, Eb. destruct (read_vint _) as [[[size sl]|]|e1|]; try reflexivity.
+    destruct (is_numeric _ && _); [reflexivity|]. destruct (negb (c_allow_id c) && _); [reflexivity|].
+    destruct (p_hier_step_cong c s1 s2 id (get_type (c_sp c) id) Hs) as [[G1 [G2 [G3 [G4 [G5 G6]]]]] Gs].
+    destruct (p_hier_step c s1 id (get_type (c_sp c) id)) as [t1 r1]. destruct (p_hier_step c s2 id (get_type (c_sp c) id)) as [t2 r2].
+    cbn [fst snd] in *. subst r2. destruct r1 as [e|]; [reflexivity|]. rewrite G5. destruct (b_bad t1); [reflexivity|].
+    assert (Hinv : forall sz, p_invalid_tag_size t2 sz = p_invalid_tag_size t1 sz) by (intros sz; unfold p_invalid_tag_size; rewrite G2, G3; reflexivity).
+    rewrite Hinv. destruct (negb (c_allow_over c) && _); [reflexivity|].
+    destruct (c_max c); destruct (ebml_size size sl); try destruct (_ <? _); reflexivity. }
+  destruct (b0 =? 0); [apply Hx|]. destruct (_ <? _); [reflexivity|apply Hx].
+Qed.
+
+Lemma pconsume_cong s1 s2 k : same_parse s1 s2 -> same_parse (pconsume s1 k) (pconsume s2 k).
+Proof. intros [H1 [H2 [H3 [H4 [H5 H6]]]]]. unfold same_parse, pconsume. cbn [b_bytes b_off b_stack b_det b_bad b_fuel]. rewrite H1, H2. repeat split; assumption. Qed.
+
+Lemma junk_cong c : forall k s1 s2, same_parse s1 s2 -> junk c s1 k -> junk c s2 k.
+Proof.
+  induction k as [|k IH]; intros s1 s2 Hs Hj; [exact I|]. destruct Hj as [[e He] Hj']. cbn [junk].
+  pose proof (pconsume_cong s1 s2 1 Hs) as Hs1. split; [exists e; rewrite <- (p_header_cong c _ _ Hs1); exact He|apply (IH _ _ Hs1 Hj')].
+Qed.
+
+Lemma junk_from_intro c st k : (exists e, snd (p_header c st) = Err e) -> junk c st k -> junk_from c st k.
+Proof.
+  intros [e He] Hj s Hs. split; [exists e; rewrite <- (p_header_cong c _ _ Hs); exact He|apply (junk_cong c k st s Hs Hj)].
+Qed.
+
+(* [junk_run c st k]: a header check fails at the current position and at each of the next k - 1 ones *)
+Definition junk_run (c : cfg) (st : pst) (k : nat) : Prop := (exists e, snd (p_header c st) = Err e) /\ junk c st (k - 1).
+
+Theorem damaged_run' c d : strict c -> c_buffered c = [] -> c_emit_eof c = true -> conf_zdoc c (undamaged d) ->
+  d_junk d <> [] -> wf_bytes (d_junk d) -> (d_levels d <> [] \/ d_f1 d <> []) ->
+  room (d_stk d) (d_off2 d + N.of_nat (length (d_junk d)) + tlen (d_x d)) ->
+  junk_run c (junk_state d) (length (d_junk d)) ->
+  exists e0, p_run c (enc_ddoc d) [RAll; RRecover; RAll] = out_ddoc d e0.
+Proof. intros H1 H2 H3 H4 H5 H6 H7 H8 [H9 H10]. apply damaged_run; try assumption. apply junk_from_intro; assumption. Qed.
+
+Theorem recovery_loses_nothing' c d : strict c -> c_buffered c = [] -> c_emit_eof c = true -> conf_zdoc c (undamaged d) ->
+  d_junk d <> [] -> wf_bytes (d_junk d) -> (d_levels d <> [] \/ d_f1 d <> []) ->
+  room (d_stk d) (d_off2 d + N.of_nat (length (d_junk d)) + tlen (d_x d)) ->
+  junk_run c (junk_state d) (length (d_junk d)) ->
+  out_tags (p_run c (enc_ddoc d) [RAll; RRecover; RAll]) = out_tags (p_run c (enc_zdoc (undamaged d)) [RAll]).
+Proof. intros H1 H2 H3 H4 H5 H6 H7 H8 [H9 H10]. apply recovery_loses_nothing; try assumption. apply junk_from_intro; assumption. Qed.
